@@ -51,6 +51,7 @@ StopClauses(rec) ==
 \* C17 — free schedules: appenders that Sync and re-read, a racing tail-side deleter, final state
 FreeC17Clauses(rec) ==
        If(rec.syncedBad # 0, "C17_appended_then_synced_header_readable")
+  \cup If(rec.syncedBad # 0, "C04_every_appended_header_retrievable_once_its_callers_Sync_returned")
   \cup If(rec.restartHead # rec.head \/ rec.restartTail # rec.finalTail, "C17_final_state_survives_a_clean_restart")
   \cup If(Len(rec.missing) # 0 \/ rec.finalTail = 0 \/ rec.finalTail > rec.head, "C17_gap_free_chain_after_racing_tail_delete")
   \cup If(rec.finalTail # rec.tailWant, "C17_tail_is_where_the_last_successful_delete_left_it")
